@@ -127,3 +127,58 @@ Definition string_of_bytes (l : list N) : string := string_of_list_ascii (map as
 
 Definition sha256 (s : string) : string := string_of_bytes (sha_bytes sha256_params (bytes_of_string s)).
 Definition sha512 (s : string) : string := string_of_bytes (sha_bytes sha512_params (bytes_of_string s)).
+
+(* ---- output length ---- *)
+From Coq Require Import Lia.
+
+Section ShaLen.
+  Variable P : sha_params.
+
+  Lemma round_len8 st k wt : length st = 8%nat -> length (round P st k wt) = 8%nat.
+  Proof.
+    intros H. destruct st as [|a [|b [|c [|d [|e [|f [|g [|h [|x r]]]]]]]]]; cbn in H; try discriminate.
+    reflexivity.
+  Qed.
+
+  Lemma rounds_go_len8 ks : forall st ws, length st = 8%nat -> length (rounds_go P st ks ws) = 8%nat.
+  Proof.
+    induction ks as [|k ks IH]; intros st ws H; cbn; [exact H|].
+    destruct ws as [|wt ws]; [exact H|]. apply IH. apply round_len8. exact H.
+  Qed.
+
+  Lemma compress_len8 st block : length st = 8%nat -> length (compress P st block) = 8%nat.
+  Proof.
+    intros H. unfold compress. rewrite map_length, combine_length, rounds_go_len8 by exact H.
+    rewrite H. reflexivity.
+  Qed.
+
+  Lemma blocks_len8 fuel : forall st ws, length st = 8%nat -> length (blocks P fuel st ws) = 8%nat.
+  Proof.
+    induction fuel as [|f IH]; intros st ws H; cbn; [exact H|].
+    destruct ws; [exact H|]. apply IH. apply compress_len8. exact H.
+  Qed.
+
+  Lemma be_bytes_len n : forall x, length (be_bytes n x) = n.
+  Proof. induction n as [|n IH]; intros x; cbn; [reflexivity|]. rewrite app_length, IH. cbn. lia. Qed.
+
+  Lemma flat_map_const_len {A} (f : A -> list N) k l :
+    (forall x, length (f x) = k) -> length (flat_map f l) = (length l * k)%nat.
+  Proof. intros Hf. induction l as [|x l IH]; cbn; [reflexivity|]. rewrite app_length, Hf, IH. lia. Qed.
+
+  Lemma sha_bytes_len msg :
+    length (hinit P) = 8%nat -> length (sha_bytes P msg) = (8 * wbytes P)%nat.
+  Proof.
+    intros H. unfold sha_bytes.
+    rewrite (flat_map_const_len _ (wbytes P)) by (intros; apply be_bytes_len).
+    rewrite blocks_len8 by exact H. reflexivity.
+  Qed.
+End ShaLen.
+
+Lemma string_of_bytes_length l : String.length (string_of_bytes l) = length l.
+Proof. unfold string_of_bytes. induction l as [|x l IH]; cbn; congruence. Qed.
+
+Lemma sha256_length s : String.length (sha256 s) = 32%nat.
+Proof. unfold sha256. rewrite string_of_bytes_length, sha_bytes_len; reflexivity. Qed.
+
+Lemma sha512_length s : String.length (sha512 s) = 64%nat.
+Proof. unfold sha512. rewrite string_of_bytes_length, sha_bytes_len; reflexivity. Qed.
